@@ -357,7 +357,7 @@ pub fn c15_deterministic_matrix_n3() {
 }
 
 // Determinism of the threaded AdjacencyMap generators within one configuration (p symbolic, equal in both calls).
-// @verif prop=C15 tier=thorough fl=f2 feat=map4 role=deterministic/adjacency-map t=3600 mem=24
+// @verif prop=C15 tier=exp fl=f2 feat=map4 role=deterministic/adjacency-map t=3600 mem=24
 #[cfg_attr(kani, kani::proof)]
 #[cfg_attr(kani, kani::unwind(10))]
 pub fn c15_deterministic_adjacency_map_n3_p4() {
